@@ -93,6 +93,8 @@ class RunResult:
     history_sig: str = ''             # hash of op-kind/target-class sequence
     relevant_ops: int = 0             # ops relevant to the checked property
     states: set = dataclasses.field(default_factory=set)
+    pairs: set = dataclasses.field(default_factory=set)       # consecutive operation-kind pairs executed
+    foreign: list = dataclasses.field(default_factory=list)   # other properties' violations seen before the run ended
     skipped: Optional[str] = None     # precondition failure reason
     known_hits: list = dataclasses.field(default_factory=list)
 
@@ -261,7 +263,7 @@ def _run_chunk(args: tuple) -> dict:
     out = {
         'runs': 0, 'stats': collections.Counter(), 'violations': [], 'digests': [],
         'history_sigs': {}, 'states': set(), 'samples': [], 'skipped': collections.Counter(),
-        'errors': [], 'steps': 0, 'known_hits': collections.Counter(),
+        'errors': [], 'steps': 0, 'known_hits': collections.Counter(), 'pairs': set(),
     }
     for run in indices:
         rng = make_rng(base_seed, prop, run)
@@ -288,10 +290,11 @@ def _run_chunk(args: tuple) -> dict:
         if res.relevant_ops:
             out['history_sigs'][res.history_sig] = out['history_sigs'].get(res.history_sig, 0) + 1
         out['states'].update(res.states)
+        out['pairs'].update(res.pairs)
         if len(out['samples']) < keep_samples and res.relevant_ops:
             out['samples'].append({'run': run, 'trace': res.trace})
         mine = [v for v in res.violations if v.prop == prop]
-        foreign = [v for v in res.violations if v.prop != prop]
+        foreign = [v for v in res.violations if v.prop != prop] + list(res.foreign)
         if mine:
             out['violations'].append((run, res.trace, [v.to_json() for v in mine]))
         elif foreign:
@@ -312,7 +315,7 @@ def run_batch(engine_factory: Callable[[], Engine], cfg: BatchConfig) -> dict:
         'runs': 0, 'stats': collections.Counter(), 'violations': [], 'digests': [],
         'history_sigs': collections.Counter(), 'states': set(), 'samples': [],
         'skipped': collections.Counter(), 'errors': [], 'steps': 0,
-        'known_hits': collections.Counter(), 'not_started': 0,
+        'known_hits': collections.Counter(), 'not_started': 0, 'pairs': set(),
     }
 
     def merge(out: dict) -> None:
@@ -322,6 +325,7 @@ def run_batch(engine_factory: Callable[[], Engine], cfg: BatchConfig) -> dict:
         agg['digests'].extend(out['digests'])
         agg['history_sigs'].update(out['history_sigs'])
         agg['states'].update(out['states'])
+        agg['pairs'].update(out['pairs'])
         if len(agg['samples']) < 3:
             agg['samples'].extend(out['samples'][:3 - len(agg['samples'])])
         agg['skipped'].update(out['skipped'])
